@@ -111,7 +111,7 @@ func TestEvalCall(t *testing.T) {
 	if c.NeedsPatch() {
 		patch, perr = api.Decode(req.Bufs[c.B])
 	}
-	r := calls.Exec(api, c, req.Bufs[c.A], req.Bufs[c.B], patch, perr)
+	r := calls.Exec(api, c, req.Bufs[c.A], req.Bufs[c.B], patch, perr, nil)
 	b, _ := json.Marshal(r)
 	fmt.Printf("RESULT %s\n", b)
 }
@@ -144,6 +144,7 @@ func check(c Case) ev.Verdict {
 	for i, b := range c.Bufs {
 		bufs[i] = calls.NewBuf(b)
 	}
+	oc := calls.NewOptsCache()   // one ApplyOptions value per option set, reused by every call naming it
 	shared := map[int]*decoded{} // buffer index -> the Patch decoded from it first
 	var patches []*decoded       // every Patch value alive in this history
 	memo := map[string]calls.Result{}
@@ -165,6 +166,9 @@ func check(c Case) ev.Verdict {
 					return fmt.Errorf("after call %d (%s): a decoded Patch value was modified\n now: %s\n was: %s", step, cl.Fn, now, d.snap)
 				}
 			}
+		}
+		if err := oc.Intact(); err != nil {
+			return fmt.Errorf("after call %d (%s): %v", step, cl.Fn, err)
 		}
 		for _, k := range outs {
 			if !bytes.Equal(k.out, k.want) {
@@ -197,7 +201,14 @@ func check(c Case) ev.Verdict {
 		} else {
 			d = &decoded{}
 		}
-		r := calls.Exec(api, cl, bufs[cl.A].B, bufs[cl.B].B, d.p, d.err)
+		if !cl.Fresh {
+			oc.Prepare(cl) // Fresh also means fresh options
+		}
+		var use *calls.OptsCache
+		if !cl.Fresh {
+			use = oc
+		}
+		r := calls.Exec(api, cl, bufs[cl.A].B, bufs[cl.B].B, d.p, d.err, use)
 		if r.Panic != "" {
 			return r, fmt.Errorf("call %d (%s) panicked: %s", step, cl.Fn, r.Panic)
 		}
